@@ -80,6 +80,29 @@ def run_case(ci):
                 nevals=len(first), complex_real_moved=complex_real_moved)
 
 
+VIEWS = dict(id=lambda x: x, rev=lambda x: x[::-1], head=lambda x: x[:2], every2=lambda x: x[::2])
+
+
+def run_view(case):
+    """affine maps that return their argument or a view of it: the Jacobian is a 0/1 selection matrix"""
+    vlib.use_repo()
+    import numdifftools.nd_scipy as nds
+    kind, n, method = case
+    x0 = np.array(multi.X0[:n])
+    I = np.eye(n)
+    want = dict(id=I, rev=I[::-1], head=I[:2], every2=I[::2])[kind]
+    try:
+        J = np.asarray(nds.Jacobian(VIEWS[kind], method=method)(x0))
+    except Exception as ex:
+        return 'raised %s: %s' % (type(ex).__name__, str(ex)[:120])
+    want = want if want.shape[0] > 1 else want.reshape(np.shape(J)) if np.size(J) == want.size else want
+    if np.shape(J) != want.shape:
+        return None if (want.shape[0] == 1 and np.shape(J) == (n,)) else 'shape %s, expected %s' % (np.shape(J), want.shape)
+    if not np.abs(J - want).max() <= 1e-6:
+        return 'Jacobian %s, exact %s' % (np.round(J, 8).tolist(), want.tolist())
+    return None
+
+
 def run(tier, rep):
     global CASES, MREC
     seed = vlib.seed_from_env()
@@ -142,6 +165,11 @@ def run(tier, rep):
                 rep.violation('value:%s:%s' % (c['method'], c['kind']), dict(case=name, got=got, want=want.tolist(), scale_arg=s),
                               '%s: result %s, exact %s (extra argument s=%g)' % (name, np.round(got, 8).tolist(), want.tolist(), s))
                 break
+    vcases = [(kind, nn, method) for kind in VIEWS for nn in (2, 3, 5) for method in ('central', 'forward', 'complex')]
+    for vc, why in zip(vcases, vlib.pool_map(run_view, vcases, chunksize=4)):
+        n += 1
+        if why:
+            rep.violation('view:%s' % vc[2], dict(case=list(vc)), 'Jacobian of the map %s (returns a view of its argument), n=%d, %s: %s' % (vc[0], vc[1], vc[2], why))
     states, trans, per = vlib.merge_tlc([res, mres])
     cov = dict(states=states, transitions=trans, traces_validated_against_impl=n, samples=[CASES[3]], evaluations=n,
                distinct_nontrivial=len({(c['cls'], c['n'], c['m'], c['method'], c['place'], c['rel'], c['kind']) for c in CASES if c['place'] != 'nobounds'}),
